@@ -245,3 +245,98 @@ SPECS['C04'] = {
              entry=['NumericAttribute._int_parser']),
     ],
 }
+
+ID = R + 'identity:'
+SPECS['C07'] = {
+    'functions': ['EFLRItem.__init__', 'EFLRItem._compute_copy_number', 'EFLRSet.register_item', 'EFLRSet.get_all_eflr_items',
+                  'EFLRItem.obname', 'write_struct_obname', 'write_struct_objref', 'Attribute.get_as_bytes',
+                  'FrameData._make_body_bytes', 'NoFormatFrameData._make_body_bytes', 'EFLRAttribute._convert_value',
+                  'LogicalFile.add_origin', 'LogicalFile.next_available_origin_ref', 'LogicalFile.add_zone',
+                  'LogicalFile.defining_origin', 'LogicalFile.default_origin_reference', 'EFLRSetsDict.get_or_make_set'],
+    'stubs': ['StructShim', 'Rope', 'LenStr', 'ksetattr', 'kint/kfloat'], 'cuts': CUTS, 'assumptions': CH_ASSUME,
+    'outside': ['an explicit origin_reference that names no ORIGIN object is accepted by design (pinned by the suite) and not asserted',
+                'reference graphs larger than one reference per attribute: resolution is per reference (O7.2 + O7.3)'],
+    'selftests': ['venv:vf.stubs.selftest:selftest_rope_struct'],
+    'obligations': [
+        dict(fn=H + 'c07.ob_copy_step', kind='universal', timeout=(200, 400), replay=ID + 'replay_copy_step',
+             bounds='four objects with symbolic names (len<=1): every equality pattern of names', entry=['EFLRItem._compute_copy_number']),
+        dict(fn=H + 'c07.reach_copy_step', kind='reach', timeout=(60, 60), validate=ID + 'replay_copy_step'),
+        dict(fn=H + 'c07.wit_copy_two_same', kind='witness', timeout=(60, 60), validate=ID + 'replay_copy_step'),
+        dict(fn=H + 'c07.ob_identity', kind='universal', timeout=(120, 300), replay=ID + 'replay_identity',
+             bounds='origin<2**30, copy<=255, name 1..255 chars, frame number<2**30: header, OBNAME, OBJREF, FDATA head, NOFMT head',
+             entry=['EFLRItem.obname', 'FrameData._make_body_bytes']),
+        dict(fn=H + 'c07.reach_identity', kind='reach', timeout=(60, 60), validate=ID + 'replay_identity'),
+        dict(fn=H + 'c07.ob_ref_admissible', kind='universal', timeout=(300, 300), shards=(8, 8), replay=ID + 'replay_ref_admissible',
+             bounds='all reference attributes x all 21 item classes (finite, exhaustive)', entry=['EFLRAttribute._convert_value']),
+        dict(fn=H + 'c07.reach_ref_admissible', kind='reach', timeout=(60, 60), validate=ID + 'replay_ref_admissible'),
+        dict(fn=H + 'c07.ob_origins', kind='universal', timeout=(300, 600), replay=ID + 'replay_origins',
+             bounds='two origins with explicit/default references <=40000; a zone before/between/after with explicit/default reference',
+             entry=['LogicalFile.add_origin', 'LogicalFile.next_available_origin_ref']),
+        dict(fn=H + 'c07.reach_origins', kind='reach', timeout=(120, 120), validate=ID + 'replay_origins'),
+        dict(fn=H + 'c07.ob_across_sets', kind='universal', timeout=(120, 120), replay=ID + 'replay_across_sets',
+             bounds='two objects of one type: same/different name x named/unnamed sets, F6 region excluded', entry=['EFLRItem._compute_copy_number']),
+        dict(fn=H + 'c07.reach_across_sets', kind='reach', timeout=(60, 60)),
+        dict(fn=H + 'c07.kf_across_sets', kind='kf', timeout=(120, 120), replay=ID + 'replay_across_sets',
+             bounds='F6 region: same name, at least one set named'),
+    ],
+}
+
+PLAIN = R + 'plain:replay_plain'
+
+
+def _pair(mod, name, timeout=(120, 300), bounds='', entry=(), replay=PLAIN, validate=PLAIN, shards=None, kind='universal'):
+    a = dict(fn=H + f'{mod}.ob_{name}', kind=kind, timeout=timeout, replay=replay, bounds=bounds, entry=list(entry))
+    if shards:
+        a['shards'] = shards
+    b = dict(fn=H + f'{mod}.reach_{name}', kind='reach', timeout=(120, 120), validate=validate)
+    if shards:
+        b['shards'] = (1, 1)
+    return [a, b]
+
+
+SPECS['C09'] = {
+    'functions': ['DLISFile.generator', 'LogicalFile.add_origin', 'LogicalFile.add_channel', 'LogicalFile.add_frame',
+                  'LogicalFile.add_zone', 'LogicalFile.add_no_format', 'LogicalFile.add_no_format_frame_data',
+                  'LogicalFile.defining_origin', 'LogicalFile._check_defining_origin_params', 'EFLRSetsDict.get_or_make_set',
+                  'EFLRSetsDict.try_add_set', 'EFLRSetsDict.add_set', 'EFLRSetsDict.get_all_items_for_set_type',
+                  'FileHeaderItem.__init__', 'FileHeaderItem._make_attrs_bytes', 'FileHeaderSet._make_template_bytes',
+                  'EFLRSet._make_body_bytes', 'OriginItem.__init__', 'get_ascii_bytes'],
+    'stubs': ['StructShim', 'Rope', 'LenStr', 'FakeMFD (iterable standing for MultiFrameData)', 'nondeterministic RNG / clock in OriginItem'],
+    'cuts': CUTS, 'assumptions': CH_ASSUME,
+    'outside': ['more than two origins / one logical file in the order obligation (two files: C18)',
+                'quick tier: sequence numbers up to 99999 (thorough: 10**10-1)'],
+    'selftests': ['venv:vf.stubs.selftest:selftest_rope_struct'],
+    'obligations': [
+        dict(fn=H + 'c09.ob_order', kind='universal', timeout=(400, 900), shards=(8, 8), replay=R + 'order:replay_order',
+             bounds='24 orders of (origin(s), channel+frame, zones, no-format + 3 payloads) x named sets x 1..2 origins (finite, exhaustive)',
+             entry=['DLISFile.generator']),
+        dict(fn=H + 'c09.reach_order', kind='reach', timeout=(120, 120), validate=R + 'order:replay_order'),
+    ] + _pair('c09', 'file_header', (600, 1800), 'sequence number 1..99999 (thorough 10**10-1), symbolic ASCII id len<=2, origin<2**30',
+              ['FileHeaderSet._make_body_bytes' if False else 'EFLRSet._make_body_bytes', 'FileHeaderItem._make_attrs_bytes'])
+      + _pair('c09', 'file_header_reject', (120, 300), 'sequence number over all integers; id length 0..300', ['FileHeaderItem.__init__'], replay=R + 'misc:replay_file_header_reject', validate=R + 'misc:replay_file_header_reject')
+      + _pair('c09', 'registry', (300, 300), 'all 64 registry states over 2 classes x {None,A,B} x request x route (finite, exhaustive)',
+              ['EFLRSetsDict.get_or_make_set', 'EFLRSetsDict.add_set', 'EFLRSetsDict.try_add_set'])
+      + _pair('c09', 'origin_params', (120, 300), 'file-set number / RNG value < 2**30, supplied or not; clock; FILE-ID unset/equal/different',
+              ['OriginItem.__init__', 'LogicalFile._check_defining_origin_params'], replay=R + 'misc:replay_origin_params', validate=R + 'misc:replay_origin_params'),
+}
+
+SPECS['C17'] = {
+    'functions': ['high_compatibility_mode', 'high_compatibility_mode_decorator', 'validate_string', 'ValidatorEnum.make_converter',
+                  'raise_or_warn', 'LogicalFile._check_channels_assigned_to_frames', 'OriginItem.__init__', 'EFLRItem.__init__',
+                  'StorageUnitLabel.__init__', 'FileHeaderItem.__init__', 'Attribute.units'],
+    'stubs': [], 'cuts': CUTS, 'assumptions': CH_ASSUME + SMT_ASSUME,
+    'outside': ['names longer than 3 characters for engine A (K5 covers the pattern for all lengths)',
+                'signed-integer channel data and non-uniform index spacing in the mode are decided with C13/C08 (numpy contract stub)'],
+    'selftests': [],
+    'obligations': _pair('c17', 'context', (60, 120), 'initial flag x nesting 1..3 x exception at any level x decorator form', ['high_compatibility_mode'])
+      + _pair('c17', 'name_rule', (120, 300), 'symbolic str, len<=3 (any code point), mode on/off', ['validate_string'])
+      + _pair('c17', 'name_sites', (120, 120), '3 entry points x 6 example names x mode (finite)', ['EFLRItem.__init__', 'StorageUnitLabel.__init__', 'FileHeaderItem.__init__'])
+      + _pair('c17', 'soft_enum', (60, 120), '4 enumerations x member/value/non-member x mode', ['ValidatorEnum.make_converter'])
+      + _pair('c17', 'enum_sites', (120, 120), 'units (attribute value and units), index type, equipment type, location x mode', ['Attribute.units'])
+      + _pair('c17', 'incidence', (120, 300), '2 channels x 2 frames: all incidence matrices x mode', ['LogicalFile._check_channels_assigned_to_frames'])
+      + _pair('c17', 'file_set_numbers', (120, 120), '1..3 origins x mode', ['OriginItem.__init__'])
+      + [dict(fn=H + 'c17.ob_raise_or_warn', kind='universal', timeout=(60, 60), replay=PLAIN, bounds='mode on/off', entry=['raise_or_warn']),
+         dict(fn=K + 'k5_hc_regex', kind='smt', engine='smt', timeout=(300, 300), replay=PLAIN,
+              bounds='strings of ANY length: HC_STRING_PATTERN (fullmatch) == [A-Z0-9_-]+ as regular languages (z3 4.8, z3 5.1, cvc5)',
+              entry=['validate_string'])],
+}
